@@ -126,6 +126,8 @@ def run(chk):
     # ---- FF3
     e8.mul_identity(chk, P.methods["__mul__"])
 
+    from . import e3 as _e3
+    _e3.run_I5(chk, ("yastn.tn.mps",))
     from . import e10
     e10.run_U(chk, ("yastn.tn.mps._mps_obc", "yastn.tn.mps._mps_parent", "yastn.tn.mps._compression", "yastn.tn.mps._initialize", "yastn.tn.mps._measure", "yastn.tn.mps._env"), floor1=5, floor2=1)
 
